@@ -19,6 +19,7 @@ def occE (y : Name) (bound : List Name) : Expr → Prop
   | .for i c s b => occE y bound i ∨ occE y bound c ∨ occE y bound s ∨ occE y bound b
   | .forIn x coll b => occE y bound coll ∨ occE y (x :: bound) b
   | .call f args => occEs y bound args ∨ occE y bound f
+  | .pipe l f args => occEs y bound args ∨ occE y bound l ∨ occE y bound f
   | .builtin _ args | .arrLit _ args _ | .arrNew args _ | .record _ args | .tuple args
   | .enumRec _ _ args | .range args => occEs y bound args
   | .lam fn => occF y bound fn
@@ -121,6 +122,7 @@ theorem mem_fvE (y : Name) (bound acc : List Name) : ∀ e : Expr,
     simp only [fvE, occE, mem_fvE y bound _ b, mem_fvE y bound _ s, mem_fvE y bound _ c, mem_fvE y bound acc i, or_assoc]
   | .forIn x coll b => by simp only [fvE, occE, mem_fvE y (x :: bound) _ b, mem_fvE y bound acc coll, or_assoc]
   | .call f args => by simp only [fvE, occE, mem_fvE y bound _ f, mem_fvEs y bound acc args, or_assoc]
+  | .pipe l f args => by simp only [fvE, occE, mem_fvE y bound _ f, mem_fvE y bound _ l, mem_fvEs y bound acc args, or_assoc]
   | .builtin _ args => by simp only [fvE, occE, mem_fvEs y bound acc args]
   | .arrLit _ args _ => by simp only [fvE, occE, mem_fvEs y bound acc args]
   | .arrNew args _ => by simp only [fvE, occE, mem_fvEs y bound acc args]
@@ -202,6 +204,7 @@ theorem nodup_fvE (bound acc : List Name) (h : acc.Nodup) : ∀ e : Expr, (fvE b
     exact nodup_fvE bound _ (nodup_fvE bound _ (nodup_fvE bound _ (nodup_fvE bound acc h i) c) s) b
   | .forIn x coll b => by simp only [fvE]; exact nodup_fvE _ _ (nodup_fvE bound acc h coll) b
   | .call f args => by simp only [fvE]; exact nodup_fvE bound _ (nodup_fvEs bound acc h args) f
+  | .pipe l f args => by simp only [fvE]; exact nodup_fvE bound _ (nodup_fvE bound _ (nodup_fvEs bound acc h args) l) f
   | .builtin _ args => by simp only [fvE]; exact nodup_fvEs bound acc h args
   | .arrLit _ args _ => by simp only [fvE]; exact nodup_fvEs bound acc h args
   | .arrNew args _ => by simp only [fvE]; exact nodup_fvEs bound acc h args
